@@ -133,61 +133,58 @@ def key_validation(ctx, rule: str = "a.key-validation") -> None:
 
 
 def _validate_join_keys_shape(ctx) -> List[Tuple[str, ast.AST]]:
+    """On the symx event log (helpers in line): the returned list receives, once per position of zip(left_on, right_on), the pair
+    (self._resolve_column(<left spec>), other._resolve_column(<right spec>)); before it, both key columns are compared with their
+    table's row count by a raise."""
+    from ..sites2 import interp_of
+    from ..symx import flatten_conds, subterms
     f = ctx.prog.func("table.Table._validate_join_keys")
-    d = Defs(f)
-    probs = []
+    it = interp_of(ctx.prog, f)
     p = f.params  # self, other, left_on, right_on
-    apps = [n for n in walk_no_nested(f.node) if isinstance(n, ast.Call) and isinstance(n.func, ast.Attribute)
-            and n.func.attr == "append" and len(n.args) == 1 and isinstance(n.args[0], ast.Tuple)
-            and len(n.args[0].elts) == 2]
-    rets = [s for s in walk_stmts(f.body) if isinstance(s, ast.Return) and s.value is not None]
-    if len(apps) != 1 or len(rets) != 1 or not isinstance(rets[0].value, ast.Name) \
-            or attr_chain(apps[0].func.value) != [rets[0].value.id]:
+    P = [("param", x) for x in p]
+    rets = [e for e in it.events if e.kind == "return" and e.depth == 0]
+    if len(rets) != 1 or rets[0].term[0] != "obj":
+        return [("_validate_join_keys: cannot find the single returned list of (left_col, right_col) pairs", f.node)]
+    pairs = rets[0].term
+    apps = [e for e in it.events if e.kind == "call" and e.term[1] == ("attr", pairs, "append") and len(e.term[2]) == 1
+            and e.term[2][0][0] == "tuple" and len(e.term[2][0][1]) == 2]
+    apps += [e for e in it.events if e.kind == "elem" and e.term == pairs and e.value[0] == "tuple" and len(e.value[1]) == 2]
+    if len(apps) != 1:
         return [("_validate_join_keys: cannot find the single `pairs.append((left_col, right_col))` / `return pairs`", f.node)]
-    lcol, rcol = apps[0].args[0].elts
-    loop = None
-    for s in walk_stmts(f.body):
-        if isinstance(s, ast.For) and any(x is apps[0] for x in walk_no_nested(s)):
-            loop = s
-    if loop is None:
-        return [("_validate_join_keys: pair construction is not in a loop", f.node)]
-    # for i, (left_spec, right_spec) in enumerate(zip(left_on, right_on))
-    it = loop.iter
-    z = it.args[0] if (isinstance(it, ast.Call) and isinstance(it.func, ast.Name) and it.func.id == "enumerate" and it.args) else it
-    if not (isinstance(z, ast.Call) and isinstance(z.func, ast.Name) and z.func.id == "zip" and len(z.args) == 2
-            and [a.id if isinstance(a, ast.Name) else None for a in z.args] == [p[2], p[3]]):
-        probs.append((f"_validate_join_keys pairs `{short(it)}`, expected zip({p[2]}, {p[3]})", loop))
+    ap = apps[0]
+    lcol, rcol = (ap.term[2][0][1] if ap.kind == "call" else ap.value[1])
+    probs = []
+    if not ap.loops:
+        return [("_validate_join_keys: pair construction is not in a loop", ap.node)]
+    lp = it.loops[ap.loops[-1]]
+    dom = lp.domain
+    mentions = lambda t, prm: any(x == prm for x in subterms(t))
+    if not (dom is not None and dom[0] == "tuple" and len(dom[1]) == 2 and mentions(dom[1][0], P[2]) and not mentions(dom[1][0], P[3])
+            and mentions(dom[1][1], P[3]) and not mentions(dom[1][1], P[2])):
+        probs.append((f"_validate_join_keys pairs `{show(lp.iter, it)[:60]}`, expected zip({p[2]}, {p[3]})", lp.node))
         return probs
-    tgt = loop.target.elts[1] if (isinstance(loop.target, ast.Tuple) and isinstance(it, ast.Call)
-                                  and isinstance(it.func, ast.Name) and it.func.id == "enumerate") else loop.target
-    if not (isinstance(tgt, ast.Tuple) and len(tgt.elts) == 2 and all(isinstance(e, ast.Name) for e in tgt.elts)):
-        probs.append(("_validate_join_keys: loop target is not (left_spec, right_spec)", loop))
-        return probs
-    lspec, rspec = tgt.elts[0].id, tgt.elts[1].id
-
-    def resolved_from(col: ast.AST, table: str, spec: str) -> bool:
-        v = d.resolve(col)
-        if not isinstance(v, ast.Call):
-            return False
-        names = [a.id if isinstance(a, ast.Name) else None for a in v.args]
-        return len(names) >= 2 and names[0] == table and names[1] == spec
-
-    if not resolved_from(lcol, p[0], lspec):
-        probs.append((f"_validate_join_keys: first pair component `{short(d.resolve(lcol))}` is not the LEFT spec resolved in self", apps[0]))
-    if not resolved_from(rcol, p[1], rspec):
-        probs.append((f"_validate_join_keys: second pair component `{short(d.resolve(rcol))}` is not the RIGHT spec resolved in other", apps[0]))
-    # length guards len(left_col) != len(self) and len(right_col) != len(other) raise
+    lspec, rspec = ("elem", dom[1][0], lp.id), ("elem", dom[1][1], lp.id)
+    if lcol != ("call", ("attr", P[0], "_resolve_column"), (lspec,), ()):
+        probs.append((f"_validate_join_keys: first pair component `{show(lcol, it)[:60]}` is not the LEFT spec resolved in self", ap.node))
+    if rcol != ("call", ("attr", P[1], "_resolve_column"), (rspec,), ()):
+        probs.append((f"_validate_join_keys: second pair component `{show(rcol, it)[:60]}` is not the RIGHT spec resolved in other", ap.node))
+    # length guards: a raise under len(left_col) != len(self), one under len(right_col) != len(other), before the pair is recorded
+    ln = lambda t: ("call", ("name", "len"), (t,), ())
     guards = {"left": False, "right": False}
-    for s in loop.body:
-        if isinstance(s, ast.If) and any(isinstance(b, ast.Raise) for b in s.body) and isinstance(s.test, ast.Compare) \
-                and len(s.test.ops) == 1 and isinstance(s.test.ops[0], ast.NotEq):
-            txt = short(s.test)
-            if txt == f"len({short(lcol)}) != len({p[0]})":
+    for e in it.events:
+        if e.kind != "raise" or lp.id not in e.loops or e.seq > ap.seq:
+            continue
+        fc = flatten_conds(e.conds)
+        if not fc:
+            continue
+        c, pol = fc[-1]
+        if c[0] == "cmp" and ((c[1] == "Eq" and not pol) or (c[1] == "NotEq" and pol)):
+            if {c[2], c[3]} == {ln(lcol), ln(P[0])}:
                 guards["left"] = True
-            if txt == f"len({short(rcol)}) != len({p[1]})":
+            if {c[2], c[3]} == {ln(rcol), ln(P[1])}:
                 guards["right"] = True
     if not all(guards.values()):
-        probs.append((f"_validate_join_keys: key length guard missing for {[k for k, v in guards.items() if not v]} side", loop))
+        probs.append((f"_validate_join_keys: key length guard missing for {[k for k, v in guards.items() if not v]} side", lp.node))
     return probs
 
 
